@@ -318,6 +318,18 @@ def sampling(tier, rng, rep):
                 if not np.all(np.abs(np.swapaxes(K, -1, -2) @ K - np.eye(m - k)) <= 1e-9):
                     rep.fail("kernel_orthonormal", "K^T K != I", inp)
             rep.case(key=("ker", t))
+        # rank-deficient matrices (wide, square and tall): the kernel has dimension m - rank
+        kk, rr = int(rng.integers(2, m + 2)), int(rng.integers(1, min(m, 4)))
+        rr = min(rr, kk - 1) if kk > 1 else 1
+        Ad = rng.normal(size=(kk, rr)) @ rng.normal(size=(rr, m))
+        inpd = {"A": Ad.tolist(), "rank": rr}
+        Kd = rep.attempt("kernel_runs", inpd, lambda: utils.kernel(Ad.copy()))
+        if Kd is not None:
+            if Kd.shape != (m, m - rr):
+                rep.fail("kernel_dimension", f"{kk}x{m} matrix of rank {rr}: kernel basis of shape {Kd.shape}, expected {(m, m - rr)}", inpd)
+            elif not np.all(np.abs(Ad @ Kd) <= 1e-9 * (1 + np.max(np.abs(Ad)))) or not np.all(np.abs(Kd.T @ Kd - np.eye(m - rr)) <= 1e-9):
+                rep.fail("kernel_annihilated", "rank-deficient matrix", inpd)
+            rep.case(key=("kerdef", t), nontrivial=kk < m)
         # frame completion in batch, Minkowski form of dimension m
         F = spec.J(m)
         X = rng.normal(size=shape + (1, m)) * 0.4
